@@ -276,6 +276,8 @@ class EventBus:
     _is_running: bool = False
     _runloop_task: asyncio.Task[None] | None = None
     _on_idle: asyncio.Event | None = None
+    # the event the run loop has taken off the queue but not started yet (it has to wait for the global lock first)
+    _dequeued_event: 'BaseEvent[Any] | None' = None
 
     def __init__(
         self,
@@ -917,6 +919,17 @@ class EventBus:
         finally:
             # Don't call stop() here as it might create new tasks
             self._is_running = False
+            self._dequeued_event = None
+
+    async def _take_next_event(self) -> 'BaseEvent[Any]':
+        """Take the next event off the queue and keep it visible as self._dequeued_event until its processing starts"""
+        assert self.event_queue
+        event = await self.event_queue.get()
+        # The run loop can only start the event once it has the global lock. The handler that holds the lock may be
+        # awaiting exactly this event (or one queued behind it): its polling loop in BaseEvent.__await__ must still
+        # find the event, and find it before the ones queued behind it.
+        self._dequeued_event = event
+        return event
 
     async def _get_next_event(self, wait_for_timeout: float = 0.1) -> 'BaseEvent[Any] | None':
         """Get the next event from the queue"""
@@ -927,7 +940,7 @@ class EventBus:
 
         try:
             # Create a task for queue.get() so we can cancel it cleanly
-            get_next_queued_event = asyncio.create_task(self.event_queue.get())
+            get_next_queued_event = asyncio.create_task(self._take_next_event())
             if hasattr(get_next_queued_event, '_log_destroy_pending'):
                 get_next_queued_event._log_destroy_pending = False  # type: ignore  # Suppress warnings on this task in case of cleanup
 
@@ -937,6 +950,7 @@ class EventBus:
                 # Check if we're still running before returning the event
                 if not self._is_running:
                     get_next_queued_event.cancel()
+                    self._dequeued_event = None
                     return None
                 return await get_next_queued_event  # await to actually resolve it to the next event
             else:
@@ -972,6 +986,10 @@ class EventBus:
         if event is None:
             return None
 
+        if from_queue and self._dequeued_event is not event:
+            # an awaiting handler has already processed it inline (and accounted for it with task_done())
+            return event
+
         logger.debug(f'🏃 {self}.step({event}) STARTING')
 
         # Clear idle state when we get an event
@@ -979,6 +997,12 @@ class EventBus:
 
         # Always acquire the global lock (it's re-entrant across tasks)
         async with _get_global_lock():
+            if from_queue:
+                if self._dequeued_event is not event:
+                    # processed inline while this task was waiting for the lock
+                    return event
+                self._dequeued_event = None
+
             # Process the event
             try:
                 await self.process_event(event, timeout=timeout)
